@@ -3,7 +3,7 @@ import enums
 from common import Result
 from e3 import Config, Subj
 from e3check import compare_transcripts, decl_key, explore
-from enums import ALL_REPRS, REPRS, family_A, family_F, family_H, family_L, family_M, family_P, family_R
+from enums import ALL_REPRS, REPRS, family_A, family_D, family_F, family_H, family_L, family_M, family_P, family_R
 
 QUICK_L_REPRS = ["i8", "u8", "i16", "u64"]
 THOROUGH_F3_REPRS = ["i8", "u8", "i16", "u16", "i64", "u64", "i128", "usize"]
@@ -24,7 +24,10 @@ def base_decls(tier, with_H=True, quick_reprs=None, renames=True, f3_reprs=None)
             out += family_R(r)
         for r in ("usize", "isize", "i64", "u128"):
             out += family_P(r)
+        out += family_D("i8", 7, "zero", renames=renames) + family_D("u8", 6, "top", renames=renames) + family_D("i64", 6, "bottom", renames=renames)
     else:
+        for r in ALL_REPRS:
+            out += family_D(r, 8, "zero", renames=renames) + family_D(r, 6, "top", renames=renames) + family_D(r, 6, "bottom", renames=renames)
         for r in ("i32", "u32", "i64", "u64", "i128", "u128", "isize", "usize"):
             out += family_P(r)
         for r in ALL_REPRS:
@@ -242,11 +245,14 @@ def c06(tier):
             ldecls += family_L(r, renames=False)
         for r in ("i8", "u32"):
             ldecls += family_R(r)
+        decls += family_D("i8", 6, "zero", renames=False)
         lbounds = dict(x1_depth=2, x2_extra=0, x2_cap=3)
     else:
         decls = []
         for r in ALL_REPRS:
             decls += family_F(r, 2, 2, 2, renames=False)
+        for r in ALL_REPRS:
+            decls += family_D(r, 7 if r in ("i8", "u64") else 6, "zero", renames=False)
         bounds = dict(x1_depth=3, x2_extra=3, x2_cap=8)
         deep_reprs = ("i8", "u8", "i64", "u128")      # full 12-operation alphabet to depth 4 on these
         ldecls = []
@@ -326,6 +332,7 @@ def c07(tier):
         decls = []
         for r in ("i8", "u8", "i64", "u128"):
             decls += family_F(r, 2, 2, 1, renames=False)
+        decls += family_D("i8", 6, "zero", renames=False)
         bounds = dict(range_x1_depth=2, range_x2_extra=2, x2_cap=7)
         lreprs = QUICK_L_REPRS
     else:
@@ -334,6 +341,8 @@ def c07(tier):
             decls += family_F(r, 2, 2, 2, renames=False)
         for r in ("i8", "u8"):
             decls += family_F(r, 3, 3, 3, renames=False)
+        for r in ALL_REPRS:
+            decls += family_D(r, 7 if r in ("i8", "u64") else 6, "zero", renames=False)
         bounds = dict(range_x1_depth=3, range_x2_extra=2, x2_cap=8)
         lreprs = ALL_REPRS
     subs = []
@@ -371,7 +380,7 @@ def c08(tier):
             ("b", Config(["names", "iter", ("as_str", {"mode": "match"})])),
             ("c", Config(["names", "iter", ("as_str", {"mode": "table"})])),
             ("d", Config(["names", ("iter", {"mode": "table"}), "as_str", "from_str"]))]
-    bounds = dict(x1_depth=2 if tier == "quick" else 3, x2_extra=2, x2_cap=7 if tier == "quick" else 8)
+    bounds = dict(x1_depth=2 if tier == "quick" else 3, x2_extra=2, x2_cap=7 if tier == "quick" else 8, w_iter=False)
     subs = []
     for i, d in enumerate(decls):
         big = len(d.variants) > 64
